@@ -281,6 +281,7 @@ type StepRun struct {
 	Env      map[string]string
 	OutWrote int
 	ErrWrote int
+	Partial  bool // a script step whose script file was not complete: the shell ran nothing of the step's command
 }
 
 type SigRec struct {
@@ -331,9 +332,21 @@ func (tr *Truth) StepProgram(pc *simexec.ProcCtx) int {
 		name = pc.Args[1]
 	}
 	key := fmt.Sprintf("%d/%s", p.PPid, name)
+	// a step with a script: runs like `sh <script file>`; if the file does not hold the whole script the
+	// shell executes what is there (here: nothing of the step's command) and exits 0
+	partial := false
+	if tr.Behaviour != nil && !strings.HasPrefix(name, "on_") {
+		if sp := tr.Behaviour(pc, name); sp != nil && sp.Script != "" && len(pc.Args) > 2 {
+			if b, err := simos.ReadFile(pc.Args[len(pc.Args)-1]); err != nil || string(b) != sp.Script {
+				partial = true
+			}
+		}
+	}
 	simrt.Big.Lock()
 	attempt := tr.counter[key]
-	tr.counter[key]++
+	if !partial {
+		tr.counter[key]++
+	}
 	run := &StepRun{Name: name, Attempt: attempt, Pid: p.Pid, AgentPid: p.PPid, Argv: append([]string{}, pc.Args...), Env: map[string]string{}}
 	for k, v := range p.Env {
 		run.Env[k] = v
@@ -343,6 +356,11 @@ func (tr *Truth) StepProgram(pc *simexec.ProcCtx) int {
 	simrt.Big.Unlock()
 	run.StartAt = w.Now()
 	run.StartSeq = w.Emit("step_start", name, fmt.Sprintf("attempt=%d", attempt), int64(p.Pid), nil)
+	if partial {
+		run.Partial = true
+		w.Probe("script_file_incomplete")
+		return 0
+	}
 
 	var dur time.Duration
 	code := 0
